@@ -197,12 +197,14 @@ def finish(ctx: Ctx) -> int:
           f"bounded_evals={ctx.evaluations} nontrivial={len(ctx.nontrivial)} violations={len(ctx.violations)} "
           f"undecided={len(ctx.undecided)} wall={wall:.1f}s")
     if ctx.violations:
-        seen = set()
-        for i, v in enumerate(ctx.violations[:20]):
+        seen = {}
+        ctx.violations.sort(key=lambda v: (0 if v.get("kind") == "proof-obligation" and v.get("replayed") else
+                                           1 if v.get("kind") != "proof-obligation" else 2))
+        for i, v in enumerate(ctx.violations):
             key = v["obligation"]
-            if key in seen and i > 5:
+            seen[key] = seen.get(key, 0) + 1
+            if seen[key] > 2 or i > 40:
                 continue
-            seen.add(key)
             p = write_replay(ctx, v, i)
             tail = ""
             if v.get("kind") == "proof-obligation" and not v.get("replayed"):
